@@ -45,6 +45,7 @@ type U struct {
 	ibcDenom string
 	uris    []string
 	proofBz []byte
+	emptyPool, resetPool uint64
 }
 
 type callRes struct {
@@ -221,6 +222,9 @@ func suiteUntrusted(e *Env) {
 	}
 	if !u.aborted {
 		u.querySection(n * 19 / 100)
+	}
+	if !u.aborted {
+		u.lpCalcSection()
 	}
 	if !u.aborted {
 		u.heavySection()
